@@ -10,6 +10,7 @@ pub mod netns;
 pub mod props_acl;
 pub mod props_codec;
 pub mod props_conf;
+pub mod props_confwire;
 pub mod props_policy;
 pub mod props_ra;
 pub mod rfc4861;
@@ -36,11 +37,11 @@ pub fn level_of(id: &str) -> &'static str {
 }
 
 pub fn has_wire_tier(id: &str) -> bool {
-    matches!(id, "C03" | "C04" | "C05" | "C06" | "C07" | "C08" | "C10" | "C12" | "C15" | "C16" | "C17" | "C18" | "C20")
+    matches!(id, "C01" | "C03" | "C04" | "C05" | "C06" | "C07" | "C08" | "C10" | "C12" | "C15" | "C16" | "C17" | "C18" | "C19" | "C20")
 }
 
 pub fn has_net_tier(id: &str) -> bool {
-    matches!(id, "C05" | "C08" | "C10" | "C12" | "C17" | "C18" | "C20")
+    matches!(id, "C01" | "C05" | "C08" | "C10" | "C12" | "C17" | "C18" | "C20")
 }
 
 /// Enter the private namespaces if this property has a wire tier.  Ok(true) = wire available.
@@ -80,6 +81,10 @@ pub fn run_check(id: &str, tier: Tier) -> i32 {
             ctx.rule("generated DHCP histories (DISCOVER/REQUEST x clock advance x pool change x reopen) against handle_pkt+Pool; oracle: grant ledger kept by the harness; non-trivial = some address granted to >=2 clients over time AND a grant made while another client holds an address of the same pool; distinct = hash of the history");
             ctx.assume("shifting all stored timestamps by d is observationally equal to advancing the clock by d (pool only compares stored times with now)");
             props_dhcp::run_hist_func(&ctx, id);
+            if wire_ok && ctx.violations.lock().unwrap().is_empty() {
+                ctx.rule("wire-race: 2..32 clients (24 hardware addresses, a third with one of 6 client identifiers, so that two hardware addresses can be one client and one hardware address two clients) race in 1..3 bursts of back-to-back frames for a pool of 1..6 addresses against the real erbium-dhcp (one task per packet): DISCOVER then REQUEST of the offer, DISCOVER/REQUEST naming a chosen pool address, REQUEST of the address offered to a neighbour; oracle: over all OFFER/ACK frames captured in the case (plus the rows the readiness probe left) the map address -> client is a function - every lease runs >= 300 s and a case lasts seconds, so nothing expires in between - and the store records the same client for each address; non-trivial = more clients than addresses and >= 2 replies");
+                props_netwire::run_c01_wire(&ctx);
+            }
         }
         "C09" => {
             ctx.rule("same histories; oracle: pre-state/post-state relation on the observed lease table; non-trivial = a holder asks again while holding a second lease / naming another address / after a pool change, or a refusal for lack of addresses");
@@ -211,6 +216,10 @@ pub fn run_check(id: &str, tier: Tier) -> i32 {
             ctx.assume("yaml-rust recursion depth: documents nesting deeper than 64 and documents using anchors/aliases are not executed (counted)");
             props_conf::run_c19(&ctx);
             fuzzdrv::run_for(&ctx, "C19");
+            if wire_ok && ctx.violations.lock().unwrap().is_empty() {
+                ctx.rule("wire-dns-smoke: generated dns-routes sections (0..4 routes; domain-suffixes absent / empty / 1..3 names incl. the root and mixed case; type absent / forward / forge-nxdomain / null; dns-servers absent / [] / null / a scripted upstream / an address nobody listens on / an unreachable address) through the real loader; every accepted document is served by a fresh erbium-dns and asked, under every configured suffix and under none, with RD set and clear over UDP and with RD set over TCP; oracle: a response to every question (any rcode) within 15 s, no panic line in the server log, process alive; non-trivial = at least one route");
+                props_confwire::run_c19_wire(&ctx);
+            }
         }
         "C06" => {
             ctx.rule("cache-model: generated query sequences (keys with near misses: label/type/DO/CD/case; replies with 0..12 records, TTLs {0,1,2,59,600,2^31,2^32-1,random} over three sections, cached error kinds) x clock moves (fixed steps and placements at +-2 s around the entry's smallest TTL in 250 ms steps) x sweeps, driven through the cache's own functions in handle_query order under tokio's paused clock; oracle: reference cache model; non-trivial = near-miss lookup, hit within 1 s of expiry, or hit on a reply with >=2 distinct TTLs in >=2 sections");
@@ -274,6 +283,7 @@ pub fn run_replay(path: &str) -> i32 {
                 .or_else(|| props_dnsconc::replay(id, sub, case))
                 .or_else(|| props_dnswire2::replay(id, sub, case))
                 .or_else(|| props_netwire::replay(id, sub, case))
+                .or_else(|| props_confwire::replay(id, sub, case))
         }
     };
     match res {
